@@ -17,7 +17,7 @@ THEOREMS = [
     "Claripy.Props.C02.round_nearest_spec", "Claripy.Props.C02.round_exact_spec", "Claripy.Props.C02.value_order_spec",
     "Claripy.Props.C02.fold_widen_all_modes", "Claripy.Props.C02.fold_cmp_float", "Claripy.Props.C02.fold_neg_abs_float",
     "Claripy.Props.C02.fold_to_ieee_bv", "Claripy.Props.C02.to_bv_spec_float", "Claripy.Props.C02.fold_narrow_rne",
-    "Claripy.Props.C02.double_rounding_innocuous_add", "Claripy.Props.C02.double_rounding_innocuous_sub", "Claripy.Props.C02.fold_add_float_rne", "Claripy.Props.C02.fold_sub_float_rne", "Claripy.Props.C02.fold_float_rne", "Claripy.Props.C02.fold_add_float_partial", "Claripy.Props.C02.sum_representable_of_53_bits", "Claripy.Props.C02.fold_mul_float_rne", "Claripy.Props.C02.round_scale_invariant", "Claripy.Props.C02.fold_int_to_double_rne", "Claripy.Props.C02.cancel_fptobv_fptofp", "Claripy.Props.C02.cancel_fptofp_fptobv",
+    "Claripy.Props.C02.double_rounding_innocuous_add", "Claripy.Props.C02.double_rounding_innocuous_sub", "Claripy.Props.C02.fold_add_float_rne", "Claripy.Props.C02.fold_sub_float_rne", "Claripy.Props.C02.fold_float_rne", "Claripy.Props.C02.double_rounding_innocuous_mul", "Claripy.Props.C02.double_rounding_innocuous_div", "Claripy.Props.C02.double_rounding_innocuous_sqrt", "Claripy.Props.C02.fold_div_float_rne", "Claripy.Props.C02.fold_sqrt_float_rne", "Claripy.Props.C02.fold_float_is_rne_in_every_mode", "Claripy.Props.C02.fold_add_float_partial", "Claripy.Props.C02.sum_representable_of_53_bits", "Claripy.Props.C02.fold_mul_float_rne", "Claripy.Props.C02.round_scale_invariant", "Claripy.Props.C02.fold_int_to_double_rne", "Claripy.Props.C02.cancel_fptobv_fptofp", "Claripy.Props.C02.cancel_fptofp_fptobv",
     "Claripy.Props.C02.fold_ignores_rm_witness", "Claripy.Props.C02.int_to_float_double_rounding_witness",
     "Claripy.Props.C02.rna_round_up_wrong",
 ]
